@@ -48,6 +48,8 @@ def default_only_when_none(col, rule, sx: SCtx, q: str, p):
     for nid in list(sx.cfg.nodes):
         for d in sx.cx.rd.defs.get(nid, []):
             if d.name == p[2] and d.kind == "assign":
+                if sx.sym.of(d.value, nid) == p:
+                    continue    # `x = x` (the other arm of a lowered conditional expression)
                 col.add(rule, f"{q}#default-only-when-None", sx.under(nid, ("cmp", "is", p, ("const", "None"))), sx.loc(nid),
                         f"`{p[2]}` is replaced by its 'everything' default only when it is None (an empty collection means: nothing)",
                         f"conditions: {[S.show(c) for c in sx.conds(nid)]}")
